@@ -21,13 +21,15 @@ def body(run):
     q = run.quick()
     exe = [None]
     jobs = [
-        lambda: run.tlc("ScRecv", "ScRecv_MC", "ScRecv_c09_mc.cfg", label="contract: 18 damage classes, budget 2, Sign and SignAndEncrypt"),
-        lambda: run.tlc("ScRecv", "ScRecv_MC", "ScRecv_c09_dev.cfg", expect="violation", count=False,
+        lambda: run.tlc("ScRecv", "ScRecv_MC", "ScRecv_c09_mc.cfg", workers=2, label="contract: 18 damage classes, budget 2, Sign and SignAndEncrypt"),
+        lambda: run.tlc("ScRecv", "ScRecv_MC", "ScRecv_c09_dev.cfg", workers=1, expect="violation", count=False,
                         label="deviation demo: missing length check violates InvNoCrash"),
         lambda: run.tlc("ScRecv", "ScRecv_MC", "ScRecv_c09_gen_q.cfg" if q else "ScRecv_c09_gen_t.cfg", mode="gen", count=False,
                         label="behaviours with damaged chunks"),
         lambda: run.tlc("ScRecv", "ScRecv_MC", "ScRecv_c09_sweep_q.cfg" if q else "ScRecv_c09_sweep_t.cfg", mode="gen", count=False,
                         label="sweeps: every byte position / truncation length (signature length 32)"),
+        lambda: run.tlc("ScRecv", "ScRecv_MC", "ScRecv_c09_gen_inj.cfg", mode="gen", count=False,
+                        label="behaviours: a frame of the adversary's own (OPN naming policy None, unknown type) and a forged / damaged chunk"),
         lambda: exe.__setitem__(0, run.go_build("screcv")),
     ]
     if not q:
@@ -36,7 +38,8 @@ def body(run):
     res = run.parallel(*jobs)
     behs = [b for b in res[2].rows if sc.nontrivial(b)]
     sweeps = res[3].rows
-    sweeps20 = res[5].rows if not q else []
+    sweeps20 = res[6].rows if not q else []
+    inj = [b for b in res[4].rows if any(s["in"] == "inject" for s in b["steps"]) and any(s["in"] == "damage" for s in b["steps"])]
     mp = MODE_POL_Q if q else MODE_POL_T
     cases = []
     salt = 0
@@ -46,6 +49,10 @@ def body(run):
                 salt += 1
                 mine = [b for b in behs if b["mode"] == mode]
                 for b in sc.sample(mine, run.pick(36, 400 if pol == "Basic256Sha256" else 80), run.seed, salt):
+                    c = dict(b)
+                    c.update({"prop": "C09", "policy": pol, "side": side, "sender": "real", "salt": salt})
+                    cases.append(c)
+                for b in sc.sample([b for b in inj if b["mode"] == mode], run.pick(10, 80 if pol == "Basic256Sha256" else 10), run.seed, salt + 100):
                     c = dict(b)
                     c.update({"prop": "C09", "policy": pol, "side": side, "sender": "real", "salt": salt})
                     cases.append(c)
@@ -69,7 +76,8 @@ def body(run):
                             cases.append(c)
     run.log("TLC: %d states; %d behaviours, %d sweeps; %d cases to replay" % (
         run.cov["states"], len(behs), len(sweeps) + len(sweeps20), len(cases)))
-    results = run.go_run(exe[0], ["-par", "6"], cases=cases, timeout=run.pick(900, 3000))
+    tpath = run.tmp("traces.ndjson")
+    results = run.go_run(exe[0], ["-par", "6", "-trace", tpath], cases=cases, timeout=run.pick(900, 3000))
     if len(results) != len(cases):
         raise vf.Inconclusive("harness returned %d results for %d cases" % (len(results), len(cases)))
     for r in results:
@@ -79,6 +87,18 @@ def body(run):
             r["nontrivial"] = True
     sc.log_inconclusive(run, results)
     run.absorb(results)
+    # code -> spec: TLC validates the recorded inputs + receiver events against the receiver of ScRecv
+    ok, n = sc.validate_traces(run, tpath, "trace validation of the replayed behaviours")
+    if ok:
+        run.cov["traces_validated_against_impl"] += n
+        bad, _ = sc.validate_traces(run, tpath, "binding self-test: one recorded verdict flipped", corrupt=True)
+        if bad is not False:
+            raise vf.Inconclusive("trace validation accepted a corrupted trace")
+        run.cov["corrupted_trace_rejected"] = True
+    elif ok is False and not run.violations:
+        run.violation("%s:recorded-trace-not-a-behaviour-of-the-specification" % run.prop.lower(),
+                      "TLC rejects the recorded receiver events (see out/log/%s)" % run.prop)
+
     run.cov["behaviours_generated"] = len(behs)
     run.cov["sweeps_generated"] = len(sweeps) + len(sweeps20)
     run.cov["rule"] = ("one case per (TLC behaviour with damaged chunk(s) | sweep segment of 8 consecutive byte positions / lengths, policy, mode, "
